@@ -863,7 +863,9 @@ impl<'a> W<'a> {
                 2 => n / 2,
                 _ => self.rng.below(n as u64) as usize,
             };
-            match self.rng.below(14) {
+            // in the Pippenger regime a dropped term is only visible when everything else balances: favour the crafted-S case
+            let kind = if n >= 95 && self.rng.chance(1, 4) { 12 } else { self.rng.below(14) };
+            match kind {
                 13 => {
                     // a second submission of another entry's (R, key, message) with a different canonical S: entries
                     // that hash alike are not the same signature
